@@ -23,7 +23,7 @@ impl C19 {
 }
 
 const BPPS: [u16; 3] = [16, 32, 15];
-const DATA_KINDS: [&str; 7] = ["raw-exact", "raw-short", "raw-long", "rle-valid", "garbage", "rle-truncated", "raw-rows-without-padding"];
+const DATA_KINDS: [&str; 9] = ["raw-exact", "raw-short", "raw-long", "rle-valid", "garbage", "rle-truncated", "raw-rows-without-padding", "rle-run-overruns-a-later-line", "rle-run-overruns-the-first-line"];
 
 #[derive(Debug)]
 struct Case {
@@ -123,6 +123,19 @@ fn make_data(c: &Case) -> (Vec<u8>, bool, Option<Vec<u32>>) {
                     let same = r.len() == raw.len();
                     (r, false, if same { Some(px) } else { None })
                 }
+                // a background run of 31 pixels after one row of colour pixels / at the very start: longer than the image
+                7 => {
+                    let mut d = vec![];
+                    if w > 0 {
+                        d.push(0x80 | (w.min(31) as u8));
+                        for _ in 0..w.min(31) {
+                            d.extend_from_slice(&[0x34, 0x12]);
+                        }
+                    }
+                    d.push(0x1F);
+                    (d, true, None)
+                }
+                8 => (vec![0x1F, 0x1F], true, None),
                 _ => (vec![0xFF, 0x00, 0x13, 0xA5, 0xF0], true, None),
             }
         }
@@ -162,6 +175,21 @@ fn make_data(c: &Case) -> (Vec<u8>, bool, Option<Vec<u32>>) {
                     let same = r.len() == raw.len();
                     (r, false, if same { Some(px) } else { None })
                 }
+                // planar: every plane = one raw first line, then a long-run control byte (run of 16) on the second line
+                7 => {
+                    let mut d = vec![0x10u8];
+                    for _ in 0..4 {
+                        if w > 0 {
+                            d.push((w.min(15) as u8) << 4);
+                            d.extend(std::iter::repeat(0x44).take(w.min(15)));
+                        }
+                        d.push(0x01);
+                        d.extend(std::iter::repeat(0x04).take(h.saturating_sub(2)));
+                    }
+                    (d, true, None)
+                }
+                // planar: a long-run control byte (run of 32) opens the first line of every plane
+                8 => (vec![0x10, 0x02, 0x02, 0x02, 0x02, 0x02, 0x02, 0x02, 0x02], true, None),
                 _ => (vec![0x10, 0xFF, 0x00, 0x13], true, None),
             }
         }
@@ -197,7 +225,7 @@ impl Prop for C19 {
         json!({"idx": idx, "window": [c.win_w, c.win_h], "rect": {"left": c.l, "top": c.t, "right": c.r, "bottom": c.b}, "image": [c.img_w, c.img_h], "bpp": c.bpp, "data": DATA_KINDS[c.kind]})
     }
     fn rule(&self) -> String {
-        "cases = (window WxH in 1..3 squared (1..4 in thorough), rectangle left/top/right/bottom each in {0..5, 65535} ({0..6, 32768, 65535} in thorough) (inside, outside, inverted), image width/height each in 0..5, depth in {16,32,15}, data in {raw exact, raw one byte short, raw 4 bytes long, valid RLE, garbage, RLE truncated, raw rows without their 4-byte padding (16 bpp) / half the rows (32 bpp)}) — the full product. Executed on the unmodified fast_bitmap_transfer under a red-zone allocator. Oracle: no panic; canary zones of every heap block intact; when the call succeeds for a rectangle inside the window with a known image, the buffer equals the reference blit (rows top..bottom, columns left..right from image rows 0.., columns 0..) and every other cell keeps its sentinel; when the call fails the buffer may hold a prefix of the rows but never a foreign value. Non-trivial: the call reached the copy loop (decompression succeeded).".into()
+        "cases = (window WxH in 1..3 squared (1..4 in thorough), rectangle left/top/right/bottom each in {0..5, 65535} ({0..6, 32768, 65535} in thorough) (inside, outside, inverted), image width/height each in 0..5, depth in {16,32,15}, data in {raw exact, raw one byte short, raw 4 bytes long, valid RLE, garbage, RLE truncated, raw rows without their 4-byte padding (16 bpp) / half the rows (32 bpp), compressed streams whose run overruns the first / a later scan line}) — the full product. Executed on the unmodified fast_bitmap_transfer under a red-zone allocator. Oracle: no panic; canary zones of every heap block intact; when the call succeeds for a rectangle inside the window with a known image, the buffer equals the reference blit (rows top..bottom, columns left..right from image rows 0.., columns 0..) and every other cell keeps its sentinel; when the call fails the buffer may hold a prefix of the rows but never a foreign value. Non-trivial: the call reached the copy loop (decompression succeeded).".into()
     }
     fn assumptions(&self) -> Vec<String> {
         vec![
